@@ -1,8 +1,8 @@
 --------------------------- MODULE Export_Witness ---------------------------
 EXTENDS Witness, Json, SequencesExt
 CONSTANT ScenOut
-ASSUME ndJsonSerialize(ScenOut, SetToSeq({[kind |-> w.kind, pc |-> w.pc, p1 |-> w.p1, p2 |-> w.p2] : w \in WProgs \cup WProgsR \cup WProgsS \cup WProgsE \cup WProgsP \cup WProgsZ}))
-ASSUME PrintT(<<"exported", Cardinality(WProgs \cup WProgsR \cup WProgsS \cup WProgsE \cup WProgsP \cup WProgsZ)>>)
+ASSUME ndJsonSerialize(ScenOut, SetToSeq({[kind |-> w.kind, pc |-> w.pc, p1 |-> w.p1, p2 |-> w.p2] : w \in WProgs \cup WProgsR \cup WProgsS \cup WProgsE \cup WProgsP \cup WProgsZ \cup WProgsD}))
+ASSUME PrintT(<<"exported", Cardinality(WProgs \cup WProgsR \cup WProgsS \cup WProgsE \cup WProgsP \cup WProgsZ \cup WProgsD)>>)
 VARIABLE x
 Init == x = 0
 Next == x' = x
